@@ -136,9 +136,9 @@ def State.find (cfg : Cfg) (st : State) (k : Key) : Option Sub := st.subs.find? 
 /-- `reference_parameters=self.notify_ref_params` of a notification -/
 def Sub.notifyRefs (s : Sub) : Refs := if s.notifyRef then .notify else .none
 
-/-- `reference_parameters=self.end_to_ref_params or self.notify_ref_params` of the SubscriptionEnd: the EndTo ones if there
-    are any, else the NotifyTo ones — also when an EndTo endpoint without reference parameters was given -/
-def Sub.endRefs (s : Sub) : Refs := if s.endRef then .endTo else s.notifyRefs
+/-- `reference_parameters=self.end_to_ref_params if self.end_to_address else self.notify_ref_params` of the SubscriptionEnd -/
+def Sub.endRefs (s : Sub) : Refs :=
+  if s.endTo.isSome then (if s.endRef then .endTo else .none) else s.notifyRefs
 
 /-- `send_notification_report` / `async_send_notification_report` of one subscription selected by `matches` -/
 def deliver (cfg : Cfg) (st : State) (ov : List (Nat × Outcome)) (a : Str) (s : Sub) : Sub × List Msg :=
@@ -224,13 +224,16 @@ deriving DecidableEq, Repr
 /-- the reference parameters of the subscriber's NotifyTo endpoint -/
 def Rec.notifyRefs (r : Rec) : Refs := if r.notifyRef then .notify else .none
 
-/-- what the code echoes in a SubscriptionEnd (`end_to_ref_params or notify_ref_params`) -/
-def Rec.endRefs (r : Rec) : Refs := if r.endRef then .endTo else r.notifyRefs
+/-- what the code echoes in a SubscriptionEnd (`end_to_ref_params if end_to_address else notify_ref_params`) -/
+def Rec.endRefs (r : Rec) : Refs :=
+  if r.endTo.isSome then (if r.endRef then .endTo else .none) else r.notifyRefs
 
 /-- what the property asks for: the reference parameters of the EndTo endpoint if one was given (none if it has none),
     otherwise those of NotifyTo -/
 def Rec.endRefsSpec (r : Rec) : Refs :=
-  if r.endRef then .endTo else if r.endTo.isSome then .none else r.notifyRefs
+  match r.endTo with
+  | some _ => if r.endRef then .endTo else .none
+  | none => r.notifyRefs
 
 structure Mon where
   recs : Nat → Option Rec
